@@ -153,6 +153,11 @@ def build_props(pid, live_deps=()):
         except FileNotFoundError:
             pass
     ok, out = coq_make(["Props/%s.vo" % pid])
+    if ok:
+        # the float instances the case files import (Model/*F.v) are not dependencies of the Props file: keep them up to date too
+        ok_all, out_all = coq_make([])
+        if not ok_all:
+            ok, out = False, out + "\n[full build]\n" + out_all
     blocks = parse_assumptions(out) if ok else []
     axioms = sorted({a for b in blocks for a in b})
     discharged = len(theorems) if ok else 0
